@@ -31,7 +31,7 @@ PROPS = {
     claim="Proof that the source multi-index produced by transpose/moveaxis/swapaxes/tile/repeat(non-repeated axes)/roll indexers lies inside the source shape for every in-shape destination index; that pad maps a padded coordinate to a source index inside the source shape exactly when it is not in the padding (index level, every axis and zone) and that view::pad then reads that source element, or the pad value without touching the source (ranks 1..3); and that static_vector never holds more than its capacity (inductive invariant over every mutator); buffer-position bounds for run-time shapes (non-linear) and slice-based views are not decided.",
     note=E1_NOTE,
     technique=E1_TECH,
-    e1=[dict(tu="c03_rearrange.cpp"), dict(tu="c03b_dynamic.cpp"), dict(tu="c04_select.cpp"), dict(tu="c19_utl.cpp"), dict(tu="c02_capacity.cpp"), dict(tu="c03c_reshape.cpp"), dict(tu="c06b_broadcast_to.cpp"), dict(tu="c15b_pad_matmul.cpp"), dict(tu="c02c_padview.cpp"), dict(tu="c04c_take.cpp"), dict(tu="c04f_diagonal.cpp"), dict(tu="c12_enum.cpp")],
+    e1=[dict(tu="c03_rearrange.cpp"), dict(tu="c03b_dynamic.cpp"), dict(tu="c04_select.cpp"), dict(tu="c19_utl.cpp"), dict(tu="c02_capacity.cpp"), dict(tu="c03c_reshape.cpp"), dict(tu="c06b_broadcast_to.cpp"), dict(tu="c15b_pad_matmul.cpp"), dict(tu="c02c_padview.cpp"), dict(tu="c04c_take.cpp"), dict(tu="c04f_diagonal.cpp"), dict(tu="c12_enum.cpp"), dict(tu="c16c_capacity.cpp")],
     e2=[dict(rule="R-SIMD"), dict(rule="R-AXISNORM.simd")],
     rule=E1_RULE,
     explanation="in-shape obligations are stated through the view's own indexer (indexing_t / decorator_t on the path); capacity obligations are an inductive class invariant (assume on entry, prove on exit).",
@@ -239,10 +239,10 @@ PROPS["C08"] = dict(
 HOOK_COMMITS = []
 PROPS["C16"] = dict(
     level="other",
-    claim="Partial, small scope: for operands of CONSTANT small shape with symbolic integer element values, the element of view::matmul is the sum of products over exactly the contracted index with NumPy's result shape - 2-d operands (1,1,1) (2,2,2) (2,3,2) (3,2,4) (1,4,3) (3,3,1) and batched operands incl. a broadcast batch axis on either side - and trace is the sum of the diagonal; in the thorough tier also matmulv2 (the tile/reshape/transpose/multiply/sum pipeline), dot / inner / vecdot of vectors, outer, kron (2,2)x(2,2) and tensordot with one contracted axis. Every operation of the view pipeline is compiled for those shapes and folded by LLVM, the values stay symbolic. Larger or run-time shapes, 1-d operand promotion in matmul, tensordot with explicit axis lists and floating-point data are not decided. (c16b_runtime) on fixed-dimension arrays with run-time shapes: matmul (2-d, batched with a broadcast batch axis), dot (vector.vector, vector.matrix, matrix.vector), inner, vecdot, outer, tensordot(1), trace (2-d and rank 3 with default axes) have a value and equal the defining sums.",
+    claim="Partial, small scope: for operands of CONSTANT small shape with symbolic integer element values, the element of view::matmul is the sum of products over exactly the contracted index with NumPy's result shape - 2-d operands (1,1,1) (2,2,2) (2,3,2) (3,2,4) (1,4,3) (3,3,1) and batched operands incl. a broadcast batch axis on either side - and trace is the sum of the diagonal; in the thorough tier also matmulv2 (the tile/reshape/transpose/multiply/sum pipeline), dot / inner / vecdot of vectors, outer, kron (2,2)x(2,2) and tensordot with one contracted axis. Every operation of the view pipeline is compiled for those shapes and folded by LLVM, the values stay symbolic. Larger or run-time shapes, 1-d operand promotion in matmul, tensordot with explicit axis lists and floating-point data are not decided. (c16b_runtime) on fixed-dimension arrays with run-time shapes: matmul (2-d, batched with a broadcast batch axis), dot (vector.vector, vector.matrix, matrix.vector), inner, vecdot, outer, tensordot(1), trace (2-d and rank 3 with default axes) have a value and equal the defining sums. (c16c_capacity, index level) tensordot_lhs_reshape, dot_lhs_reshape, dot_lhs_tile, inner_lhs_reshape on bounded-dimension shapes that fill their capacity return a container that holds every extent (and, for tensordot, the defined extents).",
     note=E1_NOTE + " The shapes are compile-time constants (tuple of meta::ct), i.e. the constant-shape branch of every index function on the path is what is proved; the run-time-shape branches of the same pipelines are covered only as far as C01-C08 cover the individual index functions.",
     technique=E1_TECH + " on view pipelines of constant shape (symbolic values)",
-    e1=[dict(tu="c16_linalg.cpp"), dict(tu="c16b_runtime.cpp")],
+    e1=[dict(tu="c16_linalg.cpp"), dict(tu="c16b_runtime.cpp"), dict(tu="c16c_capacity.cpp")],
     rule=E1_RULE,
     explanation="expected element written as the nested sum a(i,0)*b(0,j) + a(i,1)*b(1,j) + ... in index order; integer arithmetic wraps identically on both sides (-fwrapv), so the equality is exact for every value.",
     not_decided="run-time shapes, shapes beyond the listed ones, 1-d promotion in matmul, tensordot with axis lists, floating point",
